@@ -16,7 +16,7 @@
 From Coq Require Import List Bool Arith Lia.
 From Omega Require Import L4.Arena L4.Kleene L4.InitSpec.
 From OmegaGen Require Import FixpointGen Gr1Gen TransducerGen.
-From OmegaGP Require Import InitProofs TransducerModel StreettNB2 ConstructionSucceeds.
+From OmegaGP Require Import InitProofs TransducerModel StreettNB2 ConstructionSucceeds RabinSucceeds.
 
 Section C03.
 Variables nc nx ny : nat.
@@ -114,6 +114,29 @@ Example C03_examples :
     = [Some true; Some true; Some false].
 Proof. vm_compute. repeat split. Qed.
 
+(* the same for the TRANSLATED Rabin(1) construction (H, G: numbers of values
+   of the `_hold` and `_goal` fields; the winning region is the last iterate) *)
+Theorem C03_rabin_construction_succeeds :
+  forall nc nx ny (E S EI SI : bdd) (holds goals : list bdd) (moore plus_one : bool)
+         qinit fuel H G,
+  NV nc nx ny <= fuel -> Forall spred holds -> Forall spred goals ->
+  length goals <= G -> length holds < H -> 0 < length goals -> 0 < length holds ->
+  let sol := Gr1Gen.solve_rabin_game nc nx ny E S holds goals moore plus_one fuel in
+  let zk := fst (fst sol) in
+  let L := lift nc nx ny (H * G) in
+  Gr1Gen.is_realizable nc nx (ny * (H * G)) (L EI) (L SI) plus_one qinit fuel
+    (last (map L zk) bfalse) = Some true ->
+  (exists c x yb, c < nc /\ x < nx /\ yb < ny /\ last zk bfalse (sv c x yb) = true) ->
+  RabinGen.make_rabin_transducer nc nx ny H G (L E) (L S) (L EI) (L SI)
+    (map L holds) (map L goals) moore plus_one qinit fuel
+    (map L zk) (map (map L) (snd (fst sol))) (map (map (map (map L))) (snd sol)) <> None.
+Proof.
+  intros nc nx ny E S EI SI holds goals moore plus_one qinit fuel H G
+         Hf Sh Sg HnG HnH Hg Hh sol zk L.
+  exact (rabin_construction_succeeds nc nx ny E S EI SI holds goals moore plus_one qinit
+           fuel H G Hf Sh Sg HnG HnH Hg Hh).
+Qed.
+
 Print Assumptions C03_verdict_exact.
 Print Assumptions C03_init_exact.
 Print Assumptions C03_init_refused_iff_empty.
@@ -121,3 +144,4 @@ Print Assumptions C03_init_sound.
 Print Assumptions C03_init_sound_exists_forall.
 Print Assumptions C03_init_succeeds.
 Print Assumptions C03_streett_construction_succeeds.
+Print Assumptions C03_rabin_construction_succeeds.
